@@ -3,11 +3,11 @@
 Copies an agent-produced, independently confirmed change from /tmp/seed/out-<prop> into /verif/seeded/<prop>-<name>/."""
 import sys, os, shutil, json, glob
 prop, name, pkgdir, needs, breaks = sys.argv[1:6]
-src = f"/tmp/seed/out-{prop}"
+src = f"/tmp/seed/out{os.environ.get('SEEDROUND','')}-{prop}"
 dst = f"/verif/seeded/{prop}-{name}"
 os.makedirs(dst, exist_ok=True)
 shutil.copy(f"{src}/patch.diff", f"{dst}/patch.diff")
-demo = glob.glob(f"{src}/zz_seed_*_test.go")[0]
+demo = glob.glob(f"{src}/zz_seed*_test.go")[0]
 shutil.copy(demo, f"{dst}/{os.path.basename(demo)}")
 if os.path.exists(f"{src}/notes.md"):
     shutil.copy(f"{src}/notes.md", f"{dst}/notes.md")
